@@ -323,3 +323,14 @@ Proof.
   vm_compute in E. discriminate E.
 Qed.
 Print Assumptions C15_coherence_set_input_refuted.
+
+(* ------------------------------------------------------------------ events given as an Events object *)
+(* the sample an event is locked to is the exact integer quotient of picosecond counts: an on-grid event
+   (k * dt) is locked to sample k itself — not k-1 — for EVERY k and interval, and in general to the
+   sample whose bin contains the event; with C15_event_zero_at_event that sample is the one at time 0 *)
+Theorem C15_event_sample_on_grid : forall k dt, 0 < dt -> event_sample (k * dt) dt = k.
+Proof. exact event_sample_on_grid. Qed.
+Theorem C15_event_sample_bin : forall ev dt, 0 < dt ->
+  event_sample ev dt * dt <= ev < (event_sample ev dt + 1) * dt.
+Proof. exact event_sample_bin. Qed.
+Print Assumptions C15_event_sample_on_grid.
